@@ -254,6 +254,9 @@ def run(ctx):
     ctx.counted('RAWCHARS vs hand-decoded pattern', evals, len(nontriv), [{'pattern': 'a\\x7cb'}, {'pattern': cand[len(cand) // 2]}])
     from props import glue
     glue.rawchars_glue(ctx)
+    from props import clauses
+    clauses.rawchars_errors(ctx)
+    clauses.misc_clauses(ctx, 'C20')
     return ctx.finish(RULE)
 
 
